@@ -5,8 +5,8 @@ import "fmt"
 // A frame clause (unchangedHeap(), unchangedExcept(...), a modifies clause) is a conjunction with one quantified
 // conjunct per heap the function mentions. As a single goal it is the slowest obligation of every large function
 // (each conjunct needs its own chain of instantiations through the heap versions). It is split into several
-// obligations of at most frameChunk heaps each; the conjunction of the pieces is the original clause.
-const frameChunk = 6
+// obligations of at most frameChunk heaps each (3: a chunk of appended-to struct slices stays near 1 s); the conjunction of the pieces is the original clause.
+const frameChunk = 3
 
 // topConjuncts returns the conjuncts of "(and c1 c2 ...)" (balanced s-expressions), or nil if t is not of that shape.
 func topConjuncts(t string) []string {
